@@ -274,3 +274,20 @@ def value_sites(fi, ff, max_depth: int = 4):
     for r in returns_of(fi):
         expand(r, r.value if r.value is not None else ast.Constant(value=None), 0)
     return out
+
+
+def leaf_stores(ff, name: str, before: Optional[int] = None, depth: int = 0):
+    """the assignments that produce the values a local name can hold: its own stores, with plain copies (`a = b`) followed back
+    to the stores of `b` (single-exit / inlined-helper style)."""
+    out = []
+    for s in ff.order:
+        if before is not None and s.index >= before:
+            continue
+        if isinstance(s.stmt, ast.Assign) and any(isinstance(t, ast.Name) and t.id == name for t in s.stmt.targets):
+            if isinstance(s.stmt.value, ast.Name) and depth < 4 and s.stmt.value.id != name:
+                sub = leaf_stores(ff, s.stmt.value.id, s.index, depth + 1)
+                if sub:
+                    out += sub
+                    continue
+            out.append(s)
+    return out
